@@ -130,6 +130,13 @@ CHECKS.update({
         assumptions=SESS_ASSUME + ["H1 level (handler + session + store): the writer loop is the harness task draining Outgoing(); the H2 writer path is covered by C04's outbound scenario",
                                    "interleaving at synchronisation-operation granularity: unsynchronised accesses between those points are C20's subject"],
     ),
+    "C20": dict(
+        engine="sess", race=True, level="model_checking", args=[],
+        deadline=dict(quick=170, thorough=1500),
+        rule="scenario of intended use per role {acceptor, initiator} x ending {Session.Stop + peer answer, peer Logout, silent peer -> TestRequest -> Disconnect}: two application sender tasks (2 sends each, 700 ms apart), a task polling IsLogged, a task registering event handlers while events fire, the inbound dispatch path processing TestRequest, ResendRequest over stored messages, Heartbeat, application message, Logout; both timer tasks actually expiring (heartbeat interval 1 s, 2.5 s of inbound silence); bundled memory store; handler stopped at the end. All schedules within the delay bound (quick 1, thorough 2), each executed in the race-gate build with the Go race detector as per-execution oracle; a report is attributed to the execution after which the detector log grew and reduced to {innermost library function of access A <-> of access B}. A distinct non-trivial case = distinct (scenario, deviation cost) pair; evaluations = executions under the detector.",
+        assumptions=SESS_ASSUME + ["race-gate construction (DESIGN.md 2.6): scheduler hand-offs are hidden from the detector (//go:norace flag spinning), program-level edges are carried by real primitives; extra edges (per-channel mutex, goroutine creation by the carrier of the scheduler for AfterFunc bodies) can only hide races, never invent them",
+                                   "the detector reports a racing pair of code locations once per process; signatures are function-level"],
+    ),
     "C16": dict(
         engine="sess", level="model_checking", args=[],
         deadline=dict(quick=110, thorough=1500),
@@ -141,7 +148,7 @@ CHECKS.update({
 ENGINES = [
     {"name": "codecmc", "path": "harness/codec", "serves_properties": ["C01", "C02", "C03", "C11", "C17", "C18"],
      "kind_free_text": "E1: bounded-exhaustive enumeration of the codec input space (templates x populations x values x damage x byte strings) on the real fix / fix/encoding packages against an independent reference codec"},
-    {"name": "vsched", "path": "engine/vsched + engine/rewrite + harness/sess", "serves_properties": ["C04", "C05", "C13", "C06", "C07", "C08", "C09", "C10", "C14", "C15", "C16", "C19"],
+    {"name": "vsched", "path": "engine/vsched + engine/rewrite + harness/sess", "serves_properties": ["C04", "C05", "C13", "C20", "C06", "C07", "C08", "C09", "C10", "C14", "C15", "C16", "C19"],
      "kind_free_text": "E2: the real transport/session code, source-rewritten so that goroutines, channels, select, sync, context, time and errgroup run on a controlled scheduler with virtual time; stateless deviation-bounded DFS over schedules and exhaustive enumeration of event histories"},
 ]
 
@@ -168,6 +175,7 @@ LEVEL_TEXT.update({
     "C09": "Exhaustive timed-grid exploration of the real session and its polling timers under strict virtual time with a window-rule oracle for TestRequest / disconnect, ties resolved either way.",
     "C10": "Exhaustive enumeration of (outbound history, resend range[, second range]) and of (stored counter, logon sequence number) pairs on the real session and store, every case executed to quiescence under the controlled scheduler and compared with the recorded first transmissions.",
     "C13": "Exhaustive fault enumeration on the real full stack over a scripted socket: every termination cause at every scheduler-step position after every life-cycle point, for both roles and three buffer sizes, each run to quiescence under virtual time with a leak / liveness oracle; plus delay-bounded schedule exploration of selected cells.",
+    "C20": "Stateless, delay-bounded schedule exploration of the intended-use scenario with the Go race detector as oracle on every explored schedule (race-gate build: the controlled scheduler is invisible to the detector, the program's own synchronisation is not).",
     "C14": "Explicit-state exploration of the real logged-on session over all inbound histories up to a depth bound with a collision-forcing TestReqID alphabet, including queued back-to-back deliveries.",
 })
 
@@ -183,6 +191,7 @@ TECHNIQUE = {
     "C09": "explicit-state model checking of the implementation under virtual time: exhaustive placement of timed arrivals on a tick-aligned grid, window-rule oracle",
     "C10": "explicit-state model checking of the implementation: exhaustive enumeration of outbound histories x resend ranges under a controlled scheduler, reference = recorded first transmissions",
     "C13": "exhaustive fault-position enumeration (cause x life-cycle point x scheduler step) on the implementation under a controlled scheduler and virtual time, plus delay-bounded schedule exploration",
+    "C20": "delay-bounded exhaustive schedule exploration under a controlled scheduler with the Go race detector as per-execution oracle (race-gate build)",
     "C14": "explicit-state model checking of the implementation: exhaustive logged-on history enumeration (depth-bounded) with TestReqID alphabet",
     "C01": "bounded-exhaustive input enumeration on the real code vs reference oracle (small-scope model checking of a sequential function)",
     "C17": "bounded-exhaustive input enumeration on the real code vs reference field-list model",
